@@ -189,9 +189,17 @@ def r3_r5(ctx, F, hub):
                 ctx.check(bool(commit_e) and cfg.edges_guard(commit_e, mb), 'C03.R3', '%s:remove-on-Commit' % handler, 'remove_file(dst) on the Commit edge',
                           'the delete is reachable without cas_decide == Commit', term_loc(b, mb))
                 reply_rule(ctx, b, fl, mb, 'DeleteResult', 'deleted', 1, '%s:deleted-true' % handler)
+            elif c.endswith('remove_file') and classes == ['staging']:
+                ctx.ok('C03.R3', '%s:staging-cleanup' % handler, 'removal of the server\'s own staging file (not a live path)', term_loc(b, mb))
             else:
                 ctx.bad('C03.R3', '%s:%s(%s)' % (handler, short, ','.join(classes)), 'unexpected file mutation inside the commit region', term_loc(b, mb))
-        # no success reply without the corresponding operation
+        # no success reply without the corresponding operation: every path to a success reply passes the Ok edge of
+        # the operation, or (delete only) the edge on which the path is known to be absent already
+        absent_e = set()
+        for ib, it in fl.calls(lambda c: c in ('std::option::Option::<T>::is_some', 'std::option::Option::<T>::is_none')):
+            if all(o.kind == 'call' and o.key == 'serve::current_hash' for o in fl.origins(it['args'][0])):
+                oc2 = fl.outcomes(ib)
+                absent_e |= oc2.get('false' if callee(it).endswith('is_some') else 'true', set())
         for name, field, val, verb in (('PutResult', 'committed', 1, 'rename'), ('DeleteResult', 'deleted', 1, 'remove_file')):
             for bi in cfg.reachable():
                 for st in b.blocks[bi]['stmts']:
@@ -199,9 +207,14 @@ def r3_r5(ctx, F, hub):
                     if rv['k'] == 'agg' and rv.get('adt') == 'wire::Response' and rv.get('vname') == name:
                         i = rv['fields'].index(field)
                         if rv['ops'][i]['k'] == 'const' and rv['ops'][i].get('v') == val:
-                            has_op = any(cfg.dominates(mb, bi) for mb, mt in muts if callee(mt).endswith(verb))
-                            if not has_op:
-                                ctx.bad('C03.R5', '%s:%s-without-%s' % (handler, field, verb), '%s{%s:true} is built on a path with no %s' % (name, field, verb), loc(b, st['line']))
+                            ok_e = set()
+                            for mb, mt in muts:
+                                if callee(mt).endswith(verb) and not (verb == 'remove_file' and hub.path_class(b, mt['args'][0]) != 'live'):
+                                    ok_e |= fl.outcomes(mb).get('Ok', set())
+                            allowed = ok_e | (absent_e if name == 'DeleteResult' else set())
+                            if not (allowed and cfg.edges_guard(allowed, bi)):
+                                ctx.bad('C03.R5', '%s:%s-without-%s' % (handler, field, verb),
+                                        '%s{%s:true} is reachable without a successful %s' % (name, field, verb), loc(b, st['line']))
 
 
 def reply_rule(ctx, b, fl, op_bb, name, field, val, key):
